@@ -219,6 +219,8 @@ class Exec:
                     return tup(a.tolist())
                 if sp == "tensor" and self.be == "mg":
                     return mg.tensor(a)
+                if sp in ("i4", "i2", "i1", "u1", "u4"):      # index arrays of another integer dtype
+                    return a.astype({"i4": np.int32, "i2": np.int16, "i1": np.int8, "u1": np.uint8, "u4": np.uint32}[sp])
                 return a
             ix = tuple(spell(a) for a in ix)
         return ix
